@@ -3,6 +3,8 @@ CONSTANTS
   Rel = "rfc"
   Budget = 2
   Foreign = TRUE
+  Track = "rfc"
+  Demux = "link"
 INVARIANTS TypeOK NeverAdminDown UpMeansPeerAlive KnowsPeer
 PROPERTIES SilenceMeansDown Recovers
 CHECK_DEADLOCK FALSE
